@@ -897,8 +897,11 @@ impl TypeChecker {
                 let field_ty = self.push_type(Type::Unknown);
                 self.add_constraint(outer, *span, Constraint::Field(field.clone(), field_ty));
                 self.check_constraints(*span, ctx, outer)?;
-                // A function in a field is instantiated afresh every time it is read.
+                // A function in a field is instantiated afresh every time it is read - but a purity
+                // that is still open is settled on the field itself: a copy would take on a purity
+                // of its own and the field would accept the other one afterwards.
                 let field_ty = match self.find_type(field_ty) {
+                    Type::Function(_, _, Purity::Undefined) => field_ty,
                     Type::Function(_, _, _) => self.copy(field_ty),
                     _ => field_ty,
                 };
